@@ -248,8 +248,57 @@ def opposite_typing(ctx):
                                 {'kind': 'opposite-typing', 'path': path, 'held': held, 'many_opposite': many_opp})
 
 
+def default_conformance_pass(ctx):
+    """what a never-set attribute *shows* is a value of the feature too: with a default literal, after the attribute (or
+    its enumeration) has been retyped / edited — whether or not the default had been computed before — a fresh instance
+    shows a value of the type the attribute has now, and writing that value back is accepted"""
+    from pyecore import ecore as E
+    n = 40 if ctx.quick() else 600
+    Level = E.EEnum('Level', literals=['LOW', 'HIGH'])
+    Grade = E.EEnum('Grade', literals=['HIGH', 'LOW', 'MID'])
+    combos = [('5', E.EInt, E.EString), ('5', E.EString, E.EInt), ('2', E.EInt, E.EDouble), ('2', E.EDouble, E.EInt),
+              ('true', E.EBoolean, E.EString), ('LOW', Level, Grade), ('HIGH', Grade, Level), ('7', E.ELong, E.EBigDecimal),
+              ('LOW', E.EString, Level)]
+    for h in range(n):
+        rng = common.sub_rng(ctx.seed, 'C03', 'default-conformance', h)
+        lit, t1, t2 = combos[h % len(combos)]
+        A = E.EClass('A')
+        y = E.EAttribute('y', t1, defaultValueLiteral=lit)
+        A.eStructuralFeatures.append(y)
+        warm = rng.random() < .7
+        if warm:
+            _ = A().y               # the default has been computed once
+            if rng.random() < .5:
+                _ = y.get_default_value()
+        y.eType = t2
+        ctx.evaluations += 1
+        ctx.count('default-conformance/' + ('computed-before' if warm else 'first-after'))
+        ctx.nontriv(('default-conformance', h))
+        o = A()
+        try:
+            v = o.y
+        except Exception as e:
+            ctx.violate({'clause': 'ill-typed', 'default': True}, f'default literal {lit!r}, {t1.name} retyped {t2.name}: reading a fresh '
+                        f'instance raised {type(e).__name__}', {'default_conformance': h})
+            return
+        ok = (any(v is l for l in t2.eLiterals) if isinstance(t2, E.EEnum) else (v is None or type(v) is t2.eType
+                                                                                   or isinstance(v, t2.eType) and t2.eType is not int))
+        back = None
+        try:
+            o.eSet(y, v)
+        except Exception as e:
+            back = type(e).__name__
+        if not ok or back:
+            ctx.violate({'clause': 'ill-typed', 'default': True},
+                        f'ill-typed: default literal {lit!r}, attribute retyped {t1.name} -> {t2.name} ({"after" if warm else "before"} the '
+                        f'default was first computed): a fresh instance shows {v!r} ({type(v).__name__})' +
+                        (f'; writing it back raised {back}' if back else ''), {'default_conformance': h})
+            return
+
+
 def run(ctx):
     storecheck.run(ctx, CHECKS)
+    default_conformance_pass(ctx)
     matrix(ctx)
     opposite_typing(ctx)
     ctx.rule += ('; plus the exhaustive conformance matrix: every ecore data type, two enumerations sharing a literal name, 5 classes '
@@ -263,6 +312,13 @@ def search(ctx):
 
 
 def replay(ctx, data):
+    if 'default_conformance' in data['replay']:
+        common.use_repo()
+        c2 = common.Ctx('C03', 'quick', data.get('seed', 0))
+        default_conformance_pass(c2)
+        for v in c2.violations:
+            print('  ', v['what'])
+        return 1 if c2.violations else 0
     if data['replay'].get('kind') == 'matrix':
         common.use_repo()
         c2 = common.Ctx('C03', 'quick', 0)
